@@ -34,6 +34,7 @@ RULE = ("Enumerated part: all 256 byte values at odd and at even word "
         "helper call was made. Distinct: event-log digests among non-trivial "
         "runs.")
 RULE += (" Further cases: a third client's nameplate comes and goes during entry (completions compared with the server's latest list); the CLI's readline completer (real _rlcompleter.CodeInputter, harness acting as the user, blockingCallFromThread replaced by call-and-run-the-simulation-until-fired).")
+RULE += (' Case reentrant: the second allocate/set/input call is made from inside the notification of the first one (delegate or Deferred API) and again afterwards.')
 RULE += (' The readline case includes typos in the nameplate (malformed, later corrected).')
 RULE += (' The history case also fetches completions from inside the when_wordlist_is_available() notification.')
 LEVEL_TEXT = ("Exploration over generated inputs and call histories, with the "
@@ -89,7 +90,8 @@ def sweep(tier):
 def configs(tier):
     return [{"case": "history", "spake": "stub"},
             {"case": "history", "spake": "stub"},
-            {"case": "readline", "spake": "stub"}]
+            {"case": "readline", "spake": "stub"},
+            {"case": "reentrant", "spake": "stub"}]
 
 
 def V(key, clause, detail):
@@ -369,6 +371,68 @@ def run_one(seed, tape, opts):
         w.finish()
         return ca.result(sim, w, viol[0] if viol else None, True, seed,
                          extra_sample={"case": case, "code": code})
+    if case == "reentrant":
+        # the application makes its second code call from INSIDE the
+        # notification of the first one (delegate API: wormhole_got_code runs
+        # synchronously inside set_code()), then again afterwards
+        r_ = w.add_client("R", api=tape.pick(("delegate", "delegate",
+                                              "deferred"), "apir"))
+        first = tape.pick(("set", "set", "allocate", "input"), "first")
+        nested = {"done": False, "log": []}
+
+        def second_calls(where):
+            for fn, args in ((r_.w.allocate_code, (2,)),
+                             (r_.w.set_code, ("5-a-b",)),
+                             (r_.w.input_code, ())):
+                try:
+                    fn(*args)
+                    VV("C19.second_code_call", "only one of allocate/set/"
+                       "input may ever be used", "%s() %s did not raise "
+                       "(first call: %s)" % (fn.__name__, where, first))
+                except E.OnlyOneCodeError:
+                    pass
+                except Exception as e:
+                    VV("C19.second_code_call_exc", "a second code call raises "
+                       "OnlyOneCodeError", "%s() %s raised %r (first call: "
+                       "%s, api %s)" % (fn.__name__, where, e, first,
+                                         r_.api))
+
+        def on_app_event(c, kind, value):
+            if c is r_ and kind == "code" and not nested["done"]:
+                nested["done"] = True
+                sim.note("probe.second_code_call_from_code_notification")
+                second_calls("from inside the code notification")
+        w.on_app_event = on_app_event
+        try:
+            if first == "set":
+                r_.w.set_code("7-crossover-clockwork")
+            elif first == "allocate":
+                r_.w.allocate_code(2)
+            else:
+                h_ = r_.w.input_code()
+                h_.choose_nameplate("7")
+                h_.choose_words("crossover-clockwork")
+        except Exception as e:
+            VV("C19.first_code_call_raised", "the one allowed code call "
+               "works", "%s raised %r (api %s)" % (first, e, r_.api))
+        sim.run(600, until=lambda: r_.has("code"), max_time=20)
+        second_calls("after the first call returned")
+        sim.run(600, max_time=5)
+        if not viol and not r_.has("code"):
+            VV("C19.no_code", "the code call yields a code", "no code event "
+               "after %s" % first)
+        if not viol and not [m for (_, side, m) in w.server.command_log
+                             if side == r_.side and m["type"] == "add" and
+                             m.get("phase") == "pake"]:
+            VV("C19.code_entry_stalled", "entering the code starts the key "
+               "exchange", "no pake was sent after %s (api %s)" %
+               (first, r_.api))
+        r_.do_close()
+        sim.run(800, until=lambda: r_.is_closed, max_time=60)
+        w.finish()
+        return ca.result(sim, w, viol[0] if viol else None, True, seed,
+                         extra_sample={"case": case, "first": first,
+                                       "api": r_.api})
     # allocation through the full path
     length = opts.get("length")
     if length is None:
